@@ -42,7 +42,8 @@ Fixpoint sels_strictM (fuel : nat) (C : cfg) (S : schema) (frs : list fragdef) (
           forallb (fun f =>
             field_strict C S nested tn f &&
             match fn_sub f, schema_field_type S tn (fn_name f) with
-            | Some sub, Ok t => strict_sub (sels_strictM g C S frs true) S (base_name t) sub
+            | Some sub, Ok t => (* interface positions: only in the mixin-free theorem (okb = false here) *)
+                                strict_sub (fun _ _ => false) (sels_strictM g C S frs true) S (base_name t) sub
             | _, _ => true
             end) fns &&
           forallb (fun m => match lookup_frag frs m with
@@ -63,7 +64,7 @@ Lemma sels_strictM_inv gs C S frs nested tn sels g fns ms :
   sels_strictM gs C S frs nested tn sels = true -> flattenM g S frs tn tn false sels = Some (fns, ms) ->
   exists gs', gs = Datatypes.S gs' /\
     forallb (fun f => field_strict C S nested tn f &&
-                      sub_strict S (sels_strictM gs' C S frs true) tn f) fns = true /\
+                      sub_strict S (fun _ _ _ _ => false) (sels_strictM gs' C S frs true) tn f) fns = true /\
     forallb (mixin_strict gs' C S frs tn) ms = true.
 Proof.
   destruct gs as [|gs']; [discriminate|]. cbn [sels_strictM]. intros H Hfl.
@@ -237,7 +238,7 @@ Section MixS.
                                          field_facts_rev C S frs (Wn n') tn f pf) fns pfl).
     { apply Forall2_forall. intros n' Hn'. destruct n' as [|n1]; [lia|].
       eapply level_facts_rev with (W := Wn (Datatypes.S n1)) (mro := mro_fields n1 cls)
-                                  (ok := sels_okM g true C S frs true)
+                                  (ok := sels_okM g true C S frs true) (ok2 := fun _ _ _ _ => false)
                                   (strict := sels_strictM gs' C S frs true)
                                   (fuel' := fuel') (g := g) (cs := cls);
         try eassumption.
@@ -258,6 +259,7 @@ Section MixS.
       - eauto.
       - (* nested classes *)
         intros pb cn2 tn2 sels2 at2 out2 pub2 kv2 P1 P2 P3 P3' P4 P5.
+        destruct P2 as [P2 | P2]; [| discriminate P2].
         unfold Wn in P5. apply andb_true_iff in P5 as [P5 P6].
         change (class_accepts (accepts n1 cls (schema_enums S)) (mro_fields n1 cls cn2) (JObj kv2) = true) in P5.
         change (class_covers (covers n1 cls) (mro_fields n1 cls cn2) (JObj kv2) = true) in P6.
